@@ -22,7 +22,7 @@ RULE = ("Cases: a document pair, the types of the two files (json, json5, yaml; 
         "edit has non-zero cost); (b) -k == --dict-strategy none; -j == -jl -jd; --from-T == --from-mime mime(T) and "
         "--to-T == --to-mime mime(T) for every registered type T able to read the file; (c) the same bytes stored under "
         "a misleading extension with an explicit --from-T / --to-T / --from-mime / --to-mime give the output obtained "
-        "with the honest extension, for each file position independently (also right after an invocation that let the name decide, and with one file given in both positions but read as two types). Non-trivial: the two files have different "
+        "with the honest extension; (e) the same invocation without --no-status on real output streams (files with descriptors: the Printer's buffered tqdm.write path) prints the same stdout and returns the same status; (c) holds for each file position independently (also right after an invocation that let the name decide, and with one file given in both positions but read as two types). Non-trivial: the two files have different "
         "types and the explicit type differs from the one the name suggests. Distinct by case hash.")
 ASSUMPTIONS = [
     "file types are limited to the JSON family (json, json5, yaml) for mixed-type pairs, plus XML against XML: XML and plist mixed with other types are covered by C09/C13 findings",
@@ -40,13 +40,39 @@ MISLEADING = ['csv', 'xml', 'json', 'yml', 'plist', 'json5', 'txt']
 FT = graphtage.FILETYPES_BY_TYPENAME
 
 ykeys = st.sampled_from(['a', 'b', 'c', 'ab', 'k1', 'k2'])
-yscal = st.one_of(st.booleans(), st.integers(-3, 12), st.sampled_from(['a', 'b', 'ab', 'ba', 'xyz', 'abc']), st.sampled_from([0.5, 1.5, -2.5]),
-                  st.none())
+yscal = st.one_of(st.booleans(), st.integers(-3, 12), st.sampled_from(['a', 'b', 'ab', 'ba', 'xyz', 'abc']),
+                  st.sampled_from([0.5, 1.5, -2.5, 1.0, 2.0, 100.0, -0.0]), st.none())
+
+
+def respell(doc, which):
+    """the same document with its `which`-th number written as the equal number of the other type (1 <-> 1.0)"""
+    n = [0]
+
+    def rec(d):
+        if isinstance(d, bool):
+            return d
+        if isinstance(d, int) or (isinstance(d, float) and d == int(d)):
+            n[0] += 1
+            if n[0] - 1 == which:
+                return float(d) if isinstance(d, int) else int(d)
+            return d
+        if isinstance(d, list):
+            return [rec(x) for x in d]
+        if isinstance(d, dict):
+            return {k: rec(v) for k, v in d.items()}
+        return d
+    return rec(doc)
 
 
 @st.composite
 def cases(draw):
     a, b = draw(gen.doc_pairs(8, 4, yscal))
+    k = draw(st.integers(0, 9))
+    if k == 0:
+        a = draw(yscal)                      # a document that is a single scalar
+        b = draw(st.one_of(yscal, st.just(a)))
+    if k <= 2:
+        b = respell(a, draw(st.integers(0, 2)))     # equal as numbers, spelled differently
     ds, le = draw(gen.options)
     return {'a': a, 'b': b, 'ft': draw(st.sampled_from(TYPES)), 'tt': draw(st.sampled_from(TYPES)), 'ds': ds, 'le': le,
             'join': draw(st.sampled_from([None, '-j', '-jl', '-jd'])), 'mode': draw(st.sampled_from(['full', 'full', '-e'])),
@@ -250,6 +276,10 @@ def check(case):
             if lib is not None and r.exc is None and r.rc in (0, 1) and (norm(r.out), r.rc) != (norm(lib[0]), lib[1]):
                 out.fail('explicit-to-type-not-used', f"the same {ft} file as FROM and TO with --to-{other}: command rc={r.rc} out={r.out[:120]!r}; "
                                                       f"library (second side read as {other}) rc={lib[1]} out={lib[0][:120]!r}")
+        # (e) status output on, written to real streams (what a terminal or a pipe gets): same stdout, same status
+        r = cli.run_main([pa, pb] + [x for x in ba if x != '--no-status'], real_streams=True)
+        if r.exc is not None or r.rc != ref.rc or r.out != ref.out:
+            out.fail('status-output-changes-result', f"without --no-status, on real output streams: {describe(r)}")
         out.nontrivial = nontrivial
     finally:
         cli.cleanup_files(*files)
